@@ -704,7 +704,7 @@ def gen_history(rng, rig: Rig, segs: list[bytes], close_after: bool, max_steps=4
         outcome = outcome or "budget"
     summary = {"received": bytes(received), "outcome": outcome or "stuck", "blocked_before_close": stuck,
                "delivered_all": i >= len(segs), "closed": closed, "closed_early": closed_early, "late_close": late_close, "steps": len(evs),
-               "close_flags": close_flags or rig.snap().split(".")[0]}
+               "close_flags": close_flags or rig.snap().split(".")[0], "exc_set": rig.payload._exception is not None}
     return evs, obs, summary
 
 
@@ -725,7 +725,8 @@ def replay_history(rig: Rig, evs):
             received.extend(v)
         elif o.startswith("e") and outcome is None:
             outcome = "err:" + o[1:]
-    return obs, {"received": bytes(received), "outcome": outcome or "stuck", "close_flags": close_flags or rig.snap().split(".")[0]}
+    return obs, {"received": bytes(received), "outcome": outcome or "stuck", "close_flags": close_flags or rig.snap().split(".")[0],
+                 "exc_set": rig.payload._exception is not None}
 
 
 # =================================================================================================
@@ -735,6 +736,9 @@ def verdicts(case, summary, refst):
     """-> list of (kind, message).  refst = (reference decoding of the body bytes or None, 'ok'|'corrupt'|'incomplete').
     case['wire_state']: 'ok' (framing complete and valid) | 'cut' | 'mangled'."""
     ref, rstate = refst
+    if summary["outcome"] == "stuck" and summary.get("exc_set"):
+        return [("stuck_with_exception", "the payload has an exception set, yet the consumer's pending read never returns: it was woken "
+                 "without data (end of an HTTP chunk), the exception arrived before it ran, and it went back to wait without looking")]
     out = []
     rec, oc = summary["received"], summary["outcome"]
     ws = case["wire_state"]
@@ -814,6 +818,7 @@ SIGNATURES = {
     "stale_pause_chunked_deadlock": _sig({"deadlock"}),
     "lost_at_close_while_pending": _sig({"lost_at_close"}),
     "truncated_stream_clean_eof": _sig({"truncated_delivered"}),
+    "rewait_ignores_exception": _sig({"stuck_with_exception"}),
 }
 
 
@@ -1091,7 +1096,7 @@ def suite_real(ctx, n):
             evs, obs, summary, bad = run_case(loop, c, evs=c["events"])
             ran += 1
             for kind, msg in verdicts(c, summary, case_ref(c)) + bad:
-                ctx.violation(dict(c, kind=kind), f"{kind}: {msg}")
+                ctx.violation(dict(c, kind=kind, close_flags=summary.get("close_flags")), f"{kind}: {msg}")
         for _ in range(n):
             case, ref = gen_real_case(rng)
             evs, obs, summary, bad = run_case(loop, case, rng=rng)
